@@ -73,7 +73,8 @@ m = {
     ],
     "checks": checks,
     "not_applicable": na,
-    "notes": "All checks rebuild their harnesses from /repo's current headers on every run (content-addressed cache in "
+    "notes": "Genuine defects repaired in /repo by unguarded 'fix:' commits (oldest first): fbb4d00 0618972 a45cd6a 2f3a3b7 386ec99 3c9fbc6 6caaf14 2bb9e90 feec3dd 247e81b 437edf2; see known_findings.json and DESIGN.md section 4. "
+             "All checks rebuild their harnesses from /repo's current headers on every run (content-addressed cache in "
              "build/). Exit 2 = inconclusive (solver unknown, vacuous harness, build failure): never reported as success.",
 }
 json.dump(m, open("MANIFEST.json", "w"), indent=1)
